@@ -99,7 +99,7 @@ Unset(sc, n) ==
 \* ---- one step.  st = [op, n, v, w]
 Step(sc, st) ==
   CASE st.op = "asg"   -> IF st.w = "defasg" /\ Get(sc, st.n) # NONE /\ Get(sc, st.n).v \notin {UNSET, <<>>} THEN sc      \* ${n:=v} assigns only to an unset or null variable
-                          ELSE Assign(sc, st.n, st.v, st.w = "append", st.w = "elem")      \* w: plain arith read printfv for defasg append elem
+                          ELSE Assign(sc, st.n, st.v, st.w = "append", st.w \in {"elem", "mapfile"})      \* w: plain arith read printfv for defasg append elem getopts mapfile
     [] st.op = "local" -> Local(sc, st.n, st.v, st.w)                                    \* w: "" or attribute letter (declare -X inside a function)
     [] st.op = "mark"  -> IF InFunc(sc) /\ st.w \in {"i", "u", "l"} THEN Local(sc, st.n, st.v, st.w) ELSE Mark(sc, st.n, st.v, st.w)   \* export / readonly / declare -X
     [] st.op = "unset" -> Unset(sc, st.n)
